@@ -640,3 +640,165 @@ func checkAppendAlias(c *core.Ctx, l *core.Ledger, rule string, rels []string) {
 	}
 	l.Add(core.Obligation{Rule: rule, Key: "appends-examined", Status: core.Discharged, Detail: fmt.Sprintf("%d appends to a slice parameter examined in %v: none is returned", n, rels)})
 }
+
+// checkNameKey (NAME-KEY): the names of services (and modules) are unique per
+// Thrift file only. A table of the plugin-request builder that is looked up or
+// filled with a key made from the Name of a *compile.ServiceSpec or
+// *compile.Module alone — not from its file as well, and not inside a per-file
+// table — confuses same-named definitions of two files: the second gets the
+// first one's id.
+func checkNameKey(c *core.Ctx, l *core.Ledger, rule string) {
+	n := 0
+	for _, f := range c.AllFuncs("gen") {
+		if c.IsTestFile(f.Pos()) || core.IsGenerated2(c, f) || len(f.Blocks) == 0 {
+			continue
+		}
+		specParam := -1
+		for i, p := range f.Params {
+			if pt, ok := p.Type().Underlying().(*types.Pointer); ok {
+				if nm, isN := pt.Elem().(*types.Named); isN && nm.Obj().Pkg() != nil && strings.HasSuffix(nm.Obj().Pkg().Path(), "/compile") && (nm.Obj().Name() == "ServiceSpec" || nm.Obj().Name() == "Module") {
+					specParam = i
+				}
+			}
+		}
+		if specParam < 0 {
+			continue
+		}
+		k := 0
+		core.Instrs(f, func(ins ssa.Instruction) {
+			var m, key ssa.Value
+			switch x := ins.(type) {
+			case *ssa.Lookup:
+				if _, isMap := x.X.Type().Underlying().(*types.Map); !isMap {
+					return
+				}
+				m, key = x.X, x.Index
+			case *ssa.MapUpdate:
+				m, key = x.Map, x.Key
+			default:
+				return
+			}
+			ks := core.Sym(key)
+			tag := fmt.Sprintf("$%d.Name", specParam)
+			if !strings.Contains(ks, tag) {
+				return
+			}
+			n++
+			byFile := strings.Contains(ks, "ThriftFile") || strings.Contains(ks, "ThriftPath")
+			ms := core.Sym(m)
+			nested := strings.Contains(ms, "ThriftFile") || strings.Contains(ms, "ThriftPath")
+			if !nested {
+				// the map value may come from an earlier per-file lookup held in a local
+				if ex, isEx := m.(*ssa.Extract); isEx {
+					if lk, isLk := ex.Tuple.(*ssa.Lookup); isLk {
+						s2 := core.Sym(lk.Index)
+						nested = strings.Contains(s2, "ThriftFile") || strings.Contains(s2, "ThriftPath")
+					}
+				}
+				if ph, isPhi := m.(*ssa.Phi); isPhi {
+					for _, e := range ph.Edges {
+						s2 := core.Sym(e)
+						if strings.Contains(s2, "ThriftFile") || strings.Contains(s2, "ThriftPath") {
+							nested = true
+						}
+					}
+				}
+			}
+			if !byFile && !nested {
+				k++
+				l.Bad(rule, fmt.Sprintf("%s:name-key#%d", core.SSAName(f), k), c.Rel(ins.Pos()), "a table is keyed by "+ks+" alone: definitions of two files that share a name are taken for one")
+			}
+		})
+	}
+	l.Add(core.Obligation{Rule: rule, Key: "tables-examined", Status: core.Discharged, Detail: fmt.Sprintf("%d table accesses keyed by the name of a service or module specification in gen: each also keyed by, or nested under, the file", n)})
+	if n == 0 {
+		l.Bad(rule, "floor", "", "no table keyed by a specification's name found in gen (the service id table of the request builder confirmed by hand)")
+	}
+}
+
+// checkReaderRows (RSEQ): the success-path read sequence of every StreamReader
+// primitive equals its Thrift binary-protocol row — each value consumes exactly
+// its own bytes, which is what skipping an unknown field and decoding the next
+// one rest on.
+func checkReaderRows(c *core.Ctx, l *core.Ledger, rule string) {
+	m := newWireModel(c)
+	if m.rprim == nil {
+		l.Unk(rule, "primitive", "", "no StreamReader method calling io.ReadFull(field, param) was found")
+		return
+	}
+	n := 0
+	for name, want := range thriftReaderRows {
+		f := m.method("StreamReader", name)
+		if f == nil {
+			l.Unk(rule, name, "", "method StreamReader."+name+" not found")
+			continue
+		}
+		n++
+		got := dedupShapes(shapeSeqs(m.RSeqs(f)))
+		l.Add(core.Obligation{Rule: rule, Key: "StreamReader." + name, Pos: c.Rel(f.Pos()), Status: st(got == dedupShapes(want)),
+			Detail: fmt.Sprintf("success-path read sequence %s; Thrift row %s", got, dedupShapes(want))})
+	}
+	l.Floor(rule, 18)
+}
+
+// checkParsedFieldID (PARSE-ID): the parser hands the compiler the field id as
+// written. In the grammar actions (the generated y.go is what runs), whenever
+// a fieldIdentifier value is built, its ID is the scanned number converted to
+// int and nothing else, and its Unset flag is a constant — true only in the
+// production without a number. An Unset computed from the number (0 taken for
+// "missing") renumbers an explicit id.
+func checkParsedFieldID(c *core.Ctx, l *core.Ledger, rule string) {
+	f := c.SSAFunc(c.LookupFunc("idl/internal", "yyParserImpl.Parse"))
+	if f == nil {
+		l.Unk(rule, "field_identifier", "", "idl/internal yyParserImpl.Parse not found")
+		return
+	}
+	n := 0
+	var bad []string
+	core.Instrs(f, func(ins ssa.Instruction) {
+		st, ok := ins.(*ssa.Store)
+		if !ok {
+			return
+		}
+		fa, isFA := st.Addr.(*ssa.FieldAddr)
+		if !isFA {
+			return
+		}
+		pt, isP := fa.X.Type().Underlying().(*types.Pointer)
+		if !isP {
+			return
+		}
+		nm, isN := pt.Elem().(*types.Named)
+		if !isN || nm.Obj().Name() != "fieldIdentifier" {
+			return
+		}
+		fld := core.FieldOf(fa)
+		switch fld.Name() {
+		case "Unset":
+			n++
+			if _, isK := st.Val.(*ssa.Const); !isK {
+				bad = append(bad, fmt.Sprintf("Unset is computed (a %T, not a constant) at %s", st.Val, c.Rel(st.Pos())))
+			}
+		case "ID":
+			n++
+			v := st.Val
+			for {
+				if cv, isCv := v.(*ssa.Convert); isCv {
+					v = cv.X
+					continue
+				}
+				break
+			}
+			switch v.(type) {
+			case *ssa.Const, *ssa.UnOp, *ssa.Field, *ssa.Extract:
+			default:
+				bad = append(bad, fmt.Sprintf("ID is computed (a %T) at %s", v, c.Rel(st.Pos())))
+			}
+		}
+	})
+	if n < 2 {
+		l.Bad(rule, "field_identifier", c.Rel(f.Pos()), fmt.Sprintf("only %d stores into a fieldIdentifier found in the parser (two productions confirmed by hand)", n))
+		return
+	}
+	l.Check(len(bad) == 0, rule, "field_identifier", c.Rel(f.Pos()), fmt.Sprintf("%d stores: the id is the scanned number, the unset flag a constant", n), "the field id handed to the compiler is not the number as written: "+strings.Join(bad, "; "))
+}
